@@ -11,7 +11,12 @@ correspondence: generated components (module files under ck.workdir) whose updat
                 HeuTopoUnrollSim). Read from the pass: `branchiness`, `only_loop_at_top`, the return value of kosaraju_scc
                 (wrapped in this process only), top._sched.schedule_ff / update_schedule (meta blocks keep their members in
                 fn.__globals__['blk0'..], SCC wrappers list theirs in their source). The segmentation into meta blocks is
-                compared EXACTLY (same groups, same order) with the model (driver pv_mamba).
+                compared EXACTLY (same groups, same order) with the model (driver pv_mamba): `packff` on the blocks in the
+                iteration order of top.get_all_update_ff(); `sched` on the condensation graph kosaraju_scc returned (edges
+                in the iteration order of the G_new sets); `packscc` on the order each SCC wrapper shows (the BFS order is
+                taken from the wrapper; that it covers the SCC is the direct oracle's business); `heutopo` on the blocks,
+                constraint edges, CountBranchesLoops branchiness and the ranks of id(blk); `insert` = insert_sortedlist
+                alone, compiled from the source text of Mamba2020Pass.py, on sorted queues with equal keys as well.
 direct oracle:  independent of the model: every update_ff block exactly once in the flattened schedule_ff; every comb block of
                 final_upblks exactly once in the flattened update_schedule (inside an SCC wrapper: at least once, a repeat only
                 for an entry block with >= 2 constraint edges from outside its SCC, which the BFS of compile_scc enqueues once
@@ -27,8 +32,11 @@ DRIVERS = ['mamba']
 MODULE = 'PymtlVerif.Props.C01m'
 THEOREMS = ['PV.C01m.' + t for t in [
   'sortBr_perm', 'sortBr_sorted', 'packFF_flatten', 'packFF_bounds', 'packSCC_flatten', 'packSCC_bounds',
-  'insertSorted_perm', 'insertSorted_sorted', 'mamba_fuel', 'mamba_topo', 'mamba_complete', 'mamba_segmentation', 'mamba_bounds',
-  'heu_fuel', 'heu_topo', 'heu_complete']]
+  'insertSorted_perm', 'insertSorted_sorted', 'mamba_fuel', 'mamba_topo', 'mamba_complete', 'mamba_queue_sorted', 'mamba_segmentation',
+  'mamba_bounds', 'heu_fuel', 'heu_topo', 'heu_complete', 'heu_pops_min', 'sortBr_stable', 'packSCC_small']]
+# the part that concerns update_ff blocks only (C07)
+THEOREMS_FF = ['PV.C01m.' + t for t in ['sortBr_perm', 'sortBr_sorted', 'sortBr_stable', 'packFF_flatten', 'packFF_bounds']]
+THEOREM_MODULE = {t: MODULE for t in THEOREMS}
 TRUSTED = [
   'Model/Mamba.lean stands for Mamba2020Pass.schedule_ff / compile_scc packing / schedule_intra_cycle (insert_sortedlist, pop(0)/pop(), '
   'expand_node, three flush sites) and HeuristicTopoPass.schedule_intra_cycle; outside the model: CountBranchesLoops (branchiness is read '
@@ -38,7 +46,8 @@ TRUSTED = [
 ]
 RULE = ('scheduler stream: generated components with 0-40 comb blocks (branch counts drawn from pools aimed at every flush site, shapes '
         'independent / chain / layered / random DAG, optional net aliases and loop-only blocks), 0-2 rings of 2-16 blocks, 0-16 update_ff blocks; '
-        'a case = (design, pass, schedule part); non-trivial = a flush happens (>= 2 meta blocks) or the order is constrained by >= 1 edge')
+        'a case = (design, pass, schedule part); non-trivial = a flush happens (>= 2 meta blocks) or the order is constrained by >= 1 edge; '
+        'plus random sorted queues (0-8 entries, keys from a 4 x 6 grid so that equal keys occur) for insert_sortedlist')
 
 # ---------------------------------------------------------------------------------------------------------------------
 # generated designs
@@ -447,10 +456,44 @@ def compare(ck, lines, meta):
       what = {'ff': 'Model/Mamba packFF≈schedule_ff', 'sched': 'Model/Mamba mambaSched≈schedule_intra_cycle', 'scc': 'Model/Mamba packSCC≈compile_scc'}[kind]
       ck.disagreement(what, dict(case, request=req), model, impl)
 
+def real_insert_sortedlist():
+  """the nested function `insert_sortedlist` of Mamba2020Pass.schedule_intra_cycle, compiled from the source text of /repo"""
+  import ast
+  import pymtl3.passes.mamba.Mamba2020Pass as M
+  tree = ast.parse(open(M.__file__).read())
+  fns = [nd for nd in ast.walk(tree) if isinstance(nd, ast.FunctionDef) and nd.name == 'insert_sortedlist']
+  if len(fns) != 1: raise InfraError('insert_sortedlist not found in Mamba2020Pass.schedule_intra_cycle')
+  ns = {}
+  exec(compile(ast.Module(body=[fns[0]], type_ignores=[]), M.__file__, 'exec'), ns)
+  return ns['insert_sortedlist']
+
+def check_insert(ck, n):
+  """insert_sortedlist alone, on sorted queues that also contain equal keys (the pass itself never produces them)"""
+  rng = ck.rng
+  ins = real_insert_sortedlist()
+  lines, meta = [], []
+  for _ in range(n):
+    keys = sorted((rng.randrange(4), -rng.randrange(1, 7)) for _ in range(rng.randrange(0, 9)))
+    arr = [(k, i) for i, k in enumerate(keys)]
+    key = (rng.randrange(4), -rng.randrange(1, 7))
+    real = list(arr)
+    ins(real, key, 99)
+    case = {'arr': [[k[0], -k[1], i] for k, i in arr], 'key': [key[0], -key[1]], 'pass': 'Mamba2020', 'part': 'insert_sortedlist'}
+    keys_after = [k for k, _ in real]
+    if keys_after != sorted(keys_after) or sorted(real) != sorted(arr + [(key, 99)]):
+      ck.violation('mamba-insert-sortedlist', {'pass': 'Mamba2020Pass.insert_sortedlist'}, case,
+                   {'result': [[k[0], -k[1], i] for k, i in real], 'oracle': 'the queue stays sorted and gains exactly the new entry'})
+    lines.append(leanio.line('mamba', 'insert', case['arr'], key[0], -key[1], 99))
+    meta.append((case, [[k[0], -k[1], i] for k, i in real]))
+    ck.count({'part': 'insert', 'arr': case['arr'], 'key': case['key']}, nontrivial=len(arr) >= 1)
+  for (case, impl), rep in zip(meta, ck.drv('mamba').batch(lines)):
+    model = [[int(x) for x in e] for e in leanio.parse_sexp(rep)[0]]
+    if model != impl: ck.disagreement('Model/Mamba insertSorted≈insert_sortedlist', case, model, impl)
+
 def run(ck, part='all'):
   """part: 'all' (C01), 'ff' (C07: schedule_ff only)"""
   rng = ck.rng
-  n = (60 if part == 'all' else 40) if ck.tier == 'quick' else (1200 if part == 'all' else 600)
+  n = (250 if part == 'all' else 100) if ck.tier == 'quick' else (3000 if part == 'all' else 1500)
   lines, meta = [], []
   kinds = ['ff', 'dag', 'ring', 'mix', 'dag', 'ring']
   for k in range(n):
@@ -467,12 +510,21 @@ def run(ck, part='all'):
       raise InfraError(f'scheduler stream: {type(e).__name__}: {e}\n{src}')
     if len(ck.violations) > 10: break
   compare(ck, lines, meta)
+  if part == 'all': check_insert(ck, 300 if ck.tier == 'quick' else 5000)
   ck.extra_cov['mamba_designs'] = n
 
 def replay(ck, data):
   """re-run the recorded generated source through both passes, print model and implementation, 0 = all fine"""
   case = data.get('case') or {}
   src, clsname = case.get('source'), case.get('cls')
+  if case.get('part') == 'insert_sortedlist':
+    arr = [((b, -c), i) for b, c, i in case['arr']]; key = (case['key'][0], -case['key'][1])
+    real_insert_sortedlist()(arr, key, 99)
+    impl = [[k[0], -k[1], i] for k, i in arr]
+    rep = ck.drv('mamba').batch([leanio.line('mamba', 'insert', case['arr'], case['key'][0], case['key'][1], 99)])[0]
+    model = [[int(x) for x in e] for e in leanio.parse_sexp(rep)[0]]
+    print('model', model); print('impl ', impl)
+    return 0 if model == impl and [e[:2] for e in impl] == sorted(([e[0], e[1]] for e in impl), key=lambda k: (k[0], -k[1])) else 1
   if not src or not clsname:
     print('no generated source in this replay'); return 1
   print(data.get('kind'), data.get('signature')); print(str(data.get('detail'))[:1500])
